@@ -697,6 +697,16 @@ def run_callers(ctx, template, ids, pair, strategy, allowed, case, check="caller
     # ownership of every lock file
     owners = {}
     for ev in ip.trace:
+        if not ev.exc and ev.path and ev.op == "remove" and not ev.path.endswith(".lock"):
+            rel = os.path.relpath(ev.path, repo)
+            holder = owners.get(ev.path + ".lock")
+            if _watched(rel) and holder is not None and holder != ev.actor:
+                # while one writer holds the lock the protected file is his: nobody else may take it away under him
+                # (removals by an actor while NO ONE holds the lock are not judged here: the statement speaks about what a
+                # lock holder may rely on; a first version that demanded the lock for every removal alarmed on
+                # add_packed_refs, which drops loose refs under packed-refs.lock only - lost updates are C08's subject)
+                ctx.fail(f"C07:callers:{pair}:protected-file-removed-under-a-foreign-lock",
+                         f"{pair}: {ev.actor} removes {rel} while {holder} holds {rel}.lock", check, case)
         if ev.exc or not ev.path or not ev.path.endswith(".lock"):
             continue
         if ev.op == "open-w" and ev.extra == "excl":
@@ -787,7 +797,8 @@ def run(ctx):
     names = sorted(n for n in routines(ids) if n != "Repo._put_named_file" or hasattr(_R, "_put_named_file"))
     ctx.note("routines", names)
     ctx.parallel(_part_faults, [(n, r, 4) for n in names for r in range(4)])
-    ctx.parallel(_part_callers, [(pair, ctx.scale(120, 6000)) for pair in sorted(caller_pairs(ids))])
+    # pairs with a remover get the two-preemption search as well (release - rival locks - remover acts under the rival's lock)
+    ctx.parallel(_part_callers, [(pair, ctx.scale(400 if "remove_if_equals" in pair else 120, 6000)) for pair in sorted(caller_pairs(ids))])
     ctx.parallel(_part_giving_up, [sorted(giving_up(ids))[k::4] for k in range(4)])
     ctx.note("exhaustive", True)
 
